@@ -101,11 +101,18 @@ func anyShapePayload() *core.Payload {
 	switch verif.Choose("forwarding-attributes", 4) {
 	case 0: // none
 	case 1:
-		must(f.SetAttributes(&fwdtypes.CCTPAttributes{DestinationDomain: verif.Uint32("domain"), MintRecipient: verif.Bytes("recipient", 2), DestinationCaller: verif.Bytes("caller", 2)}))
+		must(f.SetAttributes(&fwdtypes.CCTPAttributes{DestinationDomain: uint32(verif.Choose("domain", 3) * 2), MintRecipient: verif.Bytes("recipient", 2), DestinationCaller: verif.Bytes("caller", 2)})) // domains 0, 2, 4 (4 = Noble, refused); all domains: C05 / C20
 	case 2:
+		// byte fields: arbitrary bytes of arbitrary length (thorough) or zero bytes of arbitrary length (quick)
+		byteField := func(label string) []byte {
+			if verif.Bound("symBytes") > 0 {
+				return verif.Bytes(label, n)
+			}
+			return verif.ZeroBytes(label, n) // arbitrary LENGTH, zero content (only lengths matter for the conversions)
+		}
 		must(f.SetAttributes(&fwdtypes.HypAttributes{
-			TokenId: verif.Bytes("token", n), DestinationDomain: uint32(verif.Choose("domain", 3)), Recipient: verif.Bytes("recipient", n),
-			CustomHookId: [][]byte{nil, make([]byte, 32), {1}}[verif.Choose("hook", 3)], CustomHookMetadata: []string{"", "0x00", "zz", "0", "0x", "0x0"}[verif.Choose("metadata", 6)],
+			TokenId: byteField("token"), DestinationDomain: uint32(verif.Choose("domain", 3)), Recipient: byteField("recipient"),
+			CustomHookId: [][]byte{nil, make([]byte, 32), {1}}[verif.Choose("hook", 3)], CustomHookMetadata: []string{"", "0x00", "zz", "0", "0x", "0x0"}[verif.Choose("metadata", verif.Bound("metaKinds"))],
 			GasLimit: verif.BigInt("gas"), MaxFee: sdk.Coin{Denom: []string{"uusdc", "", "!!"}[verif.Choose("maxfee-denom", 3)], Amount: verif.BigInt("maxfee")},
 		}))
 	case 3:
